@@ -25,6 +25,7 @@ type Engine struct {
 	effApprox  map[*types.Func]map[string]bool // effects of functions on a recursive cycle: current approximation
 	effMembers map[*types.Func]map[string]bool // functions of the recursive group being computed
 	effRound   map[*types.Func]map[string]bool // results of the current fixpoint round (not final)
+	coverReturns bool // emit a reachability (cover) query for every return site
 	effCycle   bool                            // an approximation was used since this flag was last cleared
 	repo       string
 	fset       *token.FileSet
